@@ -31,7 +31,9 @@ RULE += (' ' +
          'identically each time, and under a frozen wall clock: secrets '
          'still differ. Round 13: component surface - every other '
          'payload-moving method of a socket / file object is absent on the '
-         'wrappers or goes through the cipher. ')
+         'wrappers or goes through the cipher. Round 14: component '
+         'secret_bits - 256 draws of the secret generator, every bit '
+         'position takes both values. ')
 LEVEL_TEXT = ('Differential testing of the cipher wrappers and the RSA '
               'envelope against independent implementations over generated '
               'secrets, streams, call partitions and interleavings.')
